@@ -42,6 +42,10 @@ var gbyLeveldb = gbyTable{
 }
 
 func runC05(p *Prog, r *Report) {
+	if want("C05.20") {
+		// an in-flight snapshot read keeps the snapshot registered
+		ruleSnapshotReadsUnderLock(p, r, "C05.20")
+	}
 	if want("C05.1") {
 		r.Begin("C05.1", "E-ORD", "readers acquire in the order sequence → buffers → version: getMems precedes session.version() in DB.get, DB.has and newRawIterator; the sequence is fixed by the caller before (C03.5)", 3)
 		for _, name := range []string{"(*DB).get", "(*DB).has", "(*DB).newRawIterator"} {
